@@ -53,7 +53,7 @@ PROPS = {
         assumptions=["stages.kafka covers the APIs / versions the layouts can express (see C06 deviations); DNS items are built as the tap would (all record fields present as strings)"],
     ),
     "C16": dict(
-        proof_modules=["KsVerif.Proofs.C16"],
+        proof_modules=["KsVerif.Proofs.C16", "KsVerif.Proofs.C16Paths"],
         families=["queries.redis", "queries.amqp", "queries.http", "queries.dns", "queries.kafka", "queries.h2c"],
         rule="queries.<proto>: for every entry produced from the conversations of the stages families, its method, summary "
              "and status queries and every registered macro are evaluated on that entry by the real kfl.Apply; the Lean "
